@@ -579,3 +579,467 @@ Proof.
       split; [reflexivity|]. split; [reflexivity|]. split; [exact HI|].
       split; [reflexivity|]. split; [reflexivity|]. split; [reflexivity|]. split; [reflexivity|]. right; exact Hfull.
 Qed.
+
+(* ================================================================================================ *)
+(* 5. every admissible action preserves the invariant                                               *)
+
+Lemma QI_ext : forall k cap s s' q, users s' = users s -> getq s' = getq s -> granted s' = granted s ->
+  intrs s' = intrs s -> next_id s' = next_id s -> now s' = now s -> QI k cap s q -> QI k cap s' q.
+Proof.
+  intros k cap s s' q Eu Eq Eg Ei En Et H. destruct H. constructor; rewrite ?Eu, ?Eq, ?Eg, ?Ei, ?En, ?Et; assumption.
+Qed.
+
+Lemma trigger_put_ok : forall k cap act s, 1 <= cap -> QI k cap s (queue s) -> act_ok k act s (queue s) ->
+  exists s' new, trigger_put k cap act s = Some s' /\ queue s = new ++ queue s' /\ Inv k cap s'
+    /\ granted s' = granted s ++ map rid new
+    /\ pending s' = pending s ++ map (fun r => EReq (rid r)) new
+    /\ next_id s' = next_id s /\ now s' = now s.
+Proof.
+  intros k cap act s Hcap HI Hact.
+  destruct (scan_ok k cap act Hcap (queue s) s HI Hact) as (s1 & q' & new & Hs & Hq & HI1 & Eg & Ep & En & Et & Hpost).
+  exists (set_queue s1 q'), new. unfold trigger_put. rewrite Hs. simpl.
+  split; [reflexivity|]. split; [exact Hq|]. split.
+  - split; simpl.
+    + eapply QI_ext; [..|exact HI1]; reflexivity.
+    + intros Hlt Hne. simpl in Hlt. destruct Hpost as [->|Hfull]; [congruence|lia].
+  - repeat split; assumption.
+Qed.
+
+Definition release_state (s : state) (r : nat) : state :=
+  mkState (remove_id r (users s)) (queue s) [] (pending s ++ [ERel (next_id s)]) (granted s) (intrs s) (S (next_id s)) (now s).
+
+Lemma release_eq : forall s r, getq s = [] -> release s r = Some (release_state s r).
+Proof. intros s r H. unfold release, trigger_get. simpl. rewrite H. reflexivity. Qed.
+
+Lemma release_Inv : forall k cap s r, Inv k cap s -> Inv k cap (release_state s r).
+Proof.
+  intros k cap s r [H HJ]. destruct H. split.
+  - constructor; simpl.
+    + pose proof (remove_id_length_le r (users s)); lia.
+    + reflexivity.
+    + apply nodup_remove_l; exact i_ids0.
+    + apply nodup_remove_l; exact i_procs0.
+    + intros x Hx. assert (rid x < next_id s); [|lia]. apply i_fresh0. apply in_app_or in Hx. apply in_or_app.
+      destruct Hx as [Hx|Hx]; [left; eapply remove_id_in; exact Hx|right; exact Hx].
+    + intros i Hi. specialize (i_gfresh0 i Hi). lia.
+    + intros x Hx. apply i_ug0. eapply remove_id_in; exact Hx.
+    + exact i_qg0.
+    + exact i_sorted0.
+    + exact i_strict0.
+    + exact i_nointr0.
+    + intros x Hx. apply i_since0. eapply remove_id_in; exact Hx.
+  - intros _ _. exists (next_id s). simpl. apply in_or_app; right; left; reflexivity.
+Qed.
+
+Definition new_req (s : state) (p : nat) (prio : Z) (pre : bool) : req := mkReq (next_id s) p prio (now s) pre None.
+
+(* the put queue as it stands when the scan of the action begins *)
+Definition qscan (k : kind) (s : state) (a : action) : list req :=
+  match a with
+  | ARequest p prio pre => enqueue k (queue s) (new_req s p prio pre)
+  | ACancel _ r | AExit _ r => if existsb (Nat.eqb r) (granted s) then queue s else remove_id r (queue s)
+  | _ => queue s
+  end.
+
+Lemma request_QI : forall k cap s p prio pre, QI k cap s (queue s) ->
+  forallb (fun r => negb (rproc r =? p)) (users s ++ queue s) = true ->
+  let e := new_req s p prio pre in
+  QI k cap (bump_id (set_queue s (enqueue k (queue s) e))) (enqueue k (queue s) e)
+  /\ act_ok k (Some p) (bump_id (set_queue s (enqueue k (queue s) e))) (enqueue k (queue s) e).
+Proof.
+  intros k cap s p prio pre H Hadm e. destruct H.
+  rewrite forallb_forall in Hadm.
+  assert (P : Permutation (users s ++ enqueue k (queue s) e) (e :: users s ++ queue s)).
+  { rewrite (enqueue_perm k (queue s) e). symmetry. apply Permutation_middle. }
+  split.
+  - constructor; simpl.
+    + exact i_cap0.
+    + exact i_getq0.
+    + eapply Permutation_NoDup; [apply Permutation_map; symmetry; exact P|]. simpl. constructor; [|exact i_ids0].
+      intros Hc. apply in_map_iff in Hc. destruct Hc as (x & E & Hx). specialize (i_fresh0 x Hx). lia.
+    + eapply Permutation_NoDup; [apply Permutation_map; symmetry; exact P|]. simpl. constructor; [|exact i_procs0].
+      intros Hc. apply in_map_iff in Hc. destruct Hc as (x & E & Hx). specialize (Hadm x Hx).
+      apply negb_true_iff, Nat.eqb_neq in Hadm. congruence.
+    + intros x Hx. apply (Permutation_in _ P) in Hx. destruct Hx as [<-|Hx]; [simpl; lia|]. specialize (i_fresh0 x Hx). lia.
+    + intros i Hi. specialize (i_gfresh0 i Hi). lia.
+    + exact i_ug0.
+    + intros x Hx Hc. apply enqueue_in in Hx. destruct Hx as [->|Hx]; [|exact (i_qg0 x Hx Hc)].
+      simpl in Hc. specialize (i_gfresh0 _ Hc). lia.
+    + apply enqueue_rsorted; [exact i_sorted0|]. intros y Hy. simpl. apply i_fresh0. apply in_or_app; right; exact Hy.
+    + exact i_strict0.
+    + exact i_nointr0.
+    + exact i_since0.
+  - intros _ u Hu Hp. simpl in Hu. assert (In u (users s ++ queue s)) by (apply in_or_app; left; exact Hu).
+    specialize (Hadm u H). apply negb_true_iff, Nat.eqb_neq in Hadm. congruence.
+Qed.
+
+Lemma cancel_ok : forall k cap s p r, 1 <= cap -> Inv k cap s -> adm s (ACancel p r) = true ->
+  exists s' new, cancel k cap p s r = Some s' /\ Inv k cap s' /\ rsorted k (qscan k s (ACancel p r))
+    /\ qscan k s (ACancel p r) = new ++ queue s' /\ granted s' = granted s ++ map rid new
+    /\ next_id s' = next_id s.
+Proof.
+  intros k cap s p r Hcap [HI HJ] Hadm. unfold cancel, qscan. simpl in Hadm.
+  destruct (existsb (Nat.eqb r) (granted s)) eqn:Eg.
+  - exists s, []. simpl. rewrite app_nil_r. split; [reflexivity|]. split; [split; assumption|].
+    split; [destruct HI; assumption|]. split; reflexivity || (split; reflexivity).
+  - simpl in Hadm. apply existsb_exists in Hadm. destruct Hadm as (x & Hx & E).
+    apply andb_true_iff in E. destruct E as [E1 E2]. apply Nat.eqb_eq in E1, E2.
+    assert (Hh : has_id r (queue s) = true) by (apply has_id_in; rewrite <- E1; apply in_map; exact Hx).
+    rewrite Hh.
+    assert (HI0 : QI k cap (set_queue s (remove_id r (queue s))) (remove_id r (queue s))).
+    { destruct HI. constructor; simpl; try assumption.
+      - apply nodup_remove_r; assumption.
+      - apply nodup_remove_r; assumption.
+      - intros y Hy. apply i_fresh0. apply in_app_or in Hy. apply in_or_app. destruct Hy as [Hy|Hy]; [left; exact Hy|right; eapply remove_id_in; exact Hy].
+      - intros y Hy. apply i_qg0. eapply remove_id_in; exact Hy.
+      - apply remove_id_sorted; assumption. }
+    assert (Hact : act_ok k (Some p) (set_queue s (remove_id r (queue s))) (remove_id r (queue s))).
+    { intros _ u Hu Hp. simpl in Hu. exfalso. destruct HI.
+      apply (nodup_app_neq rproc _ _ u x i_procs0 Hu Hx). congruence. }
+    destruct (trigger_put_ok k cap (Some p) _ Hcap HI0 Hact) as (s' & new & Ht & Hq & HInv & Eg' & _ & En & _).
+    exists s', new. split; [exact Ht|]. split; [exact HInv|]. split; [destruct HI0; assumption|].
+    split; [exact Hq|]. split; [exact Eg'|exact En].
+Qed.
+
+Lemma remove_ev_keeps_rel : forall e j l, (forall i, e <> ERel i) -> In (ERel j) l -> In (ERel j) (remove_ev e l).
+Proof.
+  intros e j l He; induction l as [|x t IH]; intros H; simpl in *; [exact H|].
+  destruct (ev_eqb x e) eqn:E.
+  - destruct H as [->|H]; [|exact H]. exfalso. destruct e; simpl in E; [discriminate|]. apply (He i); reflexivity.
+  - destruct H as [->|H]; [left; reflexivity|right; apply IH; exact H].
+Qed.
+
+Lemma step_ok : forall k cap s a, 1 <= cap -> Inv k cap s -> adm s a = true ->
+  exists s' new, step k cap s a = Some s' /\ Inv k cap s' /\ rsorted k (qscan k s a)
+    /\ qscan k s a = new ++ queue s' /\ granted s' = granted s ++ map rid new.
+Proof.
+  intros k cap s a Hcap HInv Hadm. destruct a as [p prio pre|r|p r|p r|e|t].
+  - (* request *)
+    destruct HInv as [HI HJ]. simpl in Hadm.
+    destruct (request_QI k cap s p prio pre HI Hadm) as [HI0 Hact].
+    destruct (trigger_put_ok k cap (Some p) _ Hcap HI0 Hact) as (s' & new & Ht & Hq & HInv' & Eg & _).
+    exists s', new. split; [exact Ht|]. split; [exact HInv'|]. split; [destruct HI0; assumption|]. split; [exact Hq|exact Eg].
+  - (* release *)
+    exists (release_state s r), []. simpl. rewrite app_nil_r.
+    split; [apply release_eq; destruct HInv as [[] _]; assumption|]. split; [apply release_Inv; exact HInv|].
+    split; [destruct HInv as [[] _]; assumption|]. split; reflexivity.
+  - (* cancel *)
+    destruct (cancel_ok k cap s p r Hcap HInv Hadm) as (s' & new & Hc & HInv' & Hs & Hq & Eg & _).
+    exists s', new. split; [exact Hc|]. split; [exact HInv'|]. split; [exact Hs|]. split; [exact Hq|exact Eg].
+  - (* with-exit = cancel; release *)
+    destruct (cancel_ok k cap s p r Hcap HInv Hadm) as (s1 & new & Hc & HInv1 & Hs & Hq & Eg & _).
+    exists (release_state s1 r), new. simpl. rewrite Hc.
+    split; [apply release_eq; destruct HInv1 as [[] _]; assumption|]. split; [apply release_Inv; exact HInv1|].
+    split; [exact Hs|]. split; [exact Hq|exact Eg].
+  - (* the kernel processes an event *)
+    simpl in Hadm. simpl. rewrite Hadm. destruct HInv as [HI HJ]. destruct e as [i|i].
+    + exists (set_getq (set_pending s (remove_ev (EReq i) (pending s))) []), []. rewrite app_nil_r.
+      split; [unfold trigger_get; simpl; destruct HI as [? Hg]; rewrite Hg; reflexivity|].
+      split; [|split; [destruct HI; assumption|split; reflexivity]].
+      split; simpl.
+      * eapply QI_ext; [..|exact HI]; try reflexivity. simpl. destruct HI; auto.
+      * intros Hlt Hne. destruct (HJ Hlt Hne) as (j & Hj). exists j. apply remove_ev_keeps_rel; [intros ? ?; discriminate|exact Hj].
+    + assert (HI0 : QI k cap (set_pending s (remove_ev (ERel i) (pending s))) (queue (set_pending s (remove_ev (ERel i) (pending s))))).
+      { simpl. eapply QI_ext; [..|exact HI]; reflexivity. }
+      assert (Hact : act_ok k None (set_pending s (remove_ev (ERel i) (pending s))) (queue (set_pending s (remove_ev (ERel i) (pending s))))).
+      { intros _; exact Logic.I. }
+      destruct (trigger_put_ok k cap None _ Hcap HI0 Hact) as (s' & new & Ht & Hq & HInv' & Eg & _).
+      exists s', new. split; [exact Ht|]. split; [exact HInv'|]. split; [destruct HI; assumption|]. split; [exact Hq|exact Eg].
+  - (* the clock moves *)
+    exists (set_now s t), []. simpl. rewrite app_nil_r. destruct HInv as [HI HJ].
+    split; [reflexivity|]. split; [|split; [destruct HI; assumption|split; reflexivity]].
+    simpl in Hadm. destruct (pending s); [|discriminate]. apply Z.ltb_lt in Hadm.
+    split; simpl.
+    + destruct HI. constructor; simpl; try assumption.
+      intros x Hx. destruct (i_since0 x Hx) as (t0 & E & Hle). exists t0; split; [exact E|lia].
+    + exact HJ.
+Qed.
+
+Lemma init_Inv : forall k cap t0, Inv k cap (init t0).
+Proof.
+  intros k cap t0. split.
+  - constructor; simpl; try (intros ? []); try constructor; try lia; try reflexivity.
+  - intros _ Hne. simpl in Hne. congruence.
+Qed.
+
+Lemma run_Inv : forall k cap, 1 <= cap -> forall acts s0 s, Inv k cap s0 -> run k cap s0 acts = Some s -> Inv k cap s.
+Proof.
+  intros k cap Hcap acts; induction acts as [|a t IH]; intros s0 s H0 Hr; simpl in Hr.
+  - inversion Hr; subst; exact H0.
+  - destruct (adm s0 a) eqn:Ea; [|discriminate].
+    destruct (step_ok k cap s0 a Hcap H0 Ea) as (s1 & new & Hs & H1 & _). rewrite Hs in Hr. eapply IH; eassumption.
+Qed.
+
+Lemma reach_Inv : forall k cap t0 acts s, 1 <= cap -> run k cap (init t0) acts = Some s -> Inv k cap s.
+Proof. intros k cap t0 acts s Hcap Hr. eapply run_Inv; [exact Hcap|apply init_Inv|exact Hr]. Qed.
+
+(* ================================================================================================ *)
+(* 6. the theorems of C06                                                                           *)
+
+Theorem users_le_capacity : forall k cap t0 acts s, 1 <= cap ->
+  run k cap (init t0) acts = Some s -> length (users s) <= cap.
+Proof. intros k cap t0 acts s Hcap Hr. destruct (reach_Inv k cap t0 acts s Hcap Hr) as [[] _]. assumption. Qed.
+
+Theorem queue_sorted : forall k cap t0 acts s, 1 <= cap ->
+  run k cap (init t0) acts = Some s -> StronglySorted (fun x y => rank_ltb k x y = true) (queue s).
+Proof. intros k cap t0 acts s Hcap Hr. destruct (reach_Inv k cap t0 acts s Hcap Hr) as [[] _]. assumption. Qed.
+
+(* what the rank is: arrival order for Resource; (priority, time, preempting first, arrival) otherwise *)
+Theorem rank_meaning : forall k x y, rank_ltb k x y = true <->
+  match k with
+  | KRes => rid x < rid y
+  | _ => (rprio x < rprio y)%Z \/ (rprio x = rprio y /\
+         ((rtime x < rtime y)%Z \/ (rtime x = rtime y /\
+         ((rpre x = true /\ rpre y = false) \/ (rpre x = rpre y /\ rid x < rid y)))))
+  end.
+Proof.
+  intros k x y.
+  assert (G : key_ltb (rkey x) (rkey y) || key_eqb (rkey x) (rkey y) && (rid x <? rid y) = true <->
+     (rprio x < rprio y)%Z \/ (rprio x = rprio y /\
+         ((rtime x < rtime y)%Z \/ (rtime x = rtime y /\
+         ((rpre x = true /\ rpre y = false) \/ (rpre x = rpre y /\ rid x < rid y)))))).
+  { rewrite orb_true_iff, andb_true_iff, key_ltb_spec, key_eqb_eq, Nat.ltb_lt. unfold rkey, klt, b2z.
+    assert (Heq : forall (a a' b b' : Z) (c c' : bool), (a, b, c) = (a', b', c') <-> a = a' /\ b = b' /\ c = c')
+      by (intros; split; [intros H; inversion H; auto | intros (-> & -> & ->); reflexivity]).
+    rewrite Heq. destruct (rpre x), (rpre y); simpl; split; intros H;
+      repeat match goal with
+             | H : _ \/ _ |- _ => destruct H
+             | H : _ /\ _ |- _ => destruct H
+             end; try discriminate; try lia;
+      first [ left; lia
+            | right; split; [lia|]; first [left; lia | right; split; [lia|]; first [left; split; reflexivity | right; split; [reflexivity|lia]]]
+            | right; split; [repeat split; (lia || reflexivity)|lia]
+            | left; right; split; [lia|]; first [left; lia | right; split; lia] ]. }
+  destruct k; simpl; [apply Nat.ltb_lt|exact G|exact G].
+Qed.
+
+(* every admissible action succeeds (nothing raises), and the requests it grants are a prefix of the queue *)
+Theorem grant_is_head : forall k cap t0 acts s a, 1 <= cap ->
+  run k cap (init t0) acts = Some s -> adm s a = true ->
+  exists s' new, step k cap s a = Some s' /\ qscan k s a = new ++ queue s' /\ granted s' = granted s ++ map rid new.
+Proof.
+  intros k cap t0 acts s a Hcap Hr Hadm.
+  destruct (step_ok k cap s a Hcap (reach_Inv k cap t0 acts s Hcap Hr) Hadm) as (s' & new & Hs & _ & _ & Hq & Hg).
+  exists s', new. auto.
+Qed.
+
+Lemma sorted_app_lt : forall (R : req -> req -> Prop) l1 l2 x y, StronglySorted R (l1 ++ l2) -> In x l1 -> In y l2 -> R x y.
+Proof.
+  intros R l1 l2 x y; induction l1 as [|a t IH]; intros H Hx Hy; simpl in *; [destruct Hx|].
+  inversion H as [|? ? Ht Ha]; subst. destruct Hx as [->|Hx]; [|apply IH; assumption].
+  rewrite Forall_forall in Ha. apply Ha. apply in_or_app; right; exact Hy.
+Qed.
+
+(* a request granted by an action ranks before every request that is still waiting after it *)
+Theorem no_overtaking : forall k cap t0 acts s a s', 1 <= cap ->
+  run k cap (init t0) acts = Some s -> adm s a = true -> step k cap s a = Some s' ->
+  forall x y, In x (qscan k s a) -> In (rid x) (granted s') -> In y (queue s') -> rank_ltb k x y = true.
+Proof.
+  intros k cap t0 acts s a s' Hcap Hr Hadm Hs x y Hx Hg Hy.
+  destruct (step_ok k cap s a Hcap (reach_Inv k cap t0 acts s Hcap Hr) Hadm) as (s2 & new & Hs2 & HInv & Hsort & Hq & _).
+  rewrite Hs in Hs2. inversion Hs2; subst s2. rewrite Hq in Hx, Hsort. apply in_app_or in Hx. destruct Hx as [Hx|Hx].
+  - exact (sorted_app_lt _ _ _ _ _ Hsort Hx Hy).
+  - exfalso. destruct HInv as [[] _]. exact (i_qg0 x Hx Hg).
+Qed.
+
+Theorem free_slot_has_release : forall k cap t0 acts s, 1 <= cap -> run k cap (init t0) acts = Some s ->
+  length (users s) < cap -> queue s <> [] -> exists i, In (ERel i) (pending s).
+Proof. intros k cap t0 acts s Hcap Hr. destruct (reach_Inv k cap t0 acts s Hcap Hr) as [_ HJ]. exact HJ. Qed.
+
+Theorem no_idle_slot_at_advance : forall k cap t0 acts s t, 1 <= cap -> run k cap (init t0) acts = Some s ->
+  adm s (AAdvance t) = true -> queue s <> [] -> length (users s) = cap.
+Proof.
+  intros k cap t0 acts s t Hcap Hr Hadm Hne.
+  pose proof (users_le_capacity k cap t0 acts s Hcap Hr) as Hle.
+  destruct (Nat.eq_dec (length (users s)) cap) as [E|E]; [exact E|exfalso].
+  assert (Hlt : length (users s) < cap) by lia.
+  destruct (free_slot_has_release k cap t0 acts s Hcap Hr Hlt Hne) as (i & Hi).
+  simpl in Hadm. destruct (pending s); [destruct Hi|discriminate].
+Qed.
+
+Definition released (s : state) : state :=
+  mkState (users s) (queue s) (getq s) (pending s ++ [ERel (next_id s)]) (granted s) (intrs s) (S (next_id s)) (now s).
+
+Lemma release_nonuser : forall k cap s r, Inv k cap s -> ~ In r (map rid (users s)) ->
+  step k cap s (ARelease r) = Some (released s).
+Proof.
+  intros k cap s r [HI _] Hn. simpl. destruct HI. rewrite (release_eq s r i_getq0).
+  unfold release_state, released. rewrite (remove_id_notin r (users s) Hn), i_getq0. reflexivity.
+Qed.
+
+(* releasing a request that is not a user changes nothing but adds one (harmless) triggered Release event *)
+Theorem release_idempotent : forall k cap t0 acts s r, 1 <= cap -> run k cap (init t0) acts = Some s ->
+  ~ In r (map rid (users s)) -> step k cap s (ARelease r) = Some (released s).
+Proof. intros k cap t0 acts s r Hcap Hr. apply release_nonuser. exact (reach_Inv k cap t0 acts s Hcap Hr). Qed.
+
+Lemma remove_id_gone : forall i l, NoDup (map rid l) -> ~ In i (map rid (remove_id i l)).
+Proof.
+  intros i l; induction l as [|y t IH]; intros H; simpl in *; [tauto|].
+  inversion H as [|? ? Hn Hd]; subst. destruct (rid y =? i) eqn:E.
+  - apply Nat.eqb_eq in E. subst. exact Hn.
+  - simpl. intros [Hc|Hc]; [apply Nat.eqb_neq in E; congruence|exact (IH Hd Hc)].
+Qed.
+
+(* ... in particular releasing twice *)
+Theorem release_twice : forall k cap t0 acts s r s1, 1 <= cap -> run k cap (init t0) acts = Some s ->
+  step k cap s (ARelease r) = Some s1 -> step k cap s1 (ARelease r) = Some (released s1).
+Proof.
+  intros k cap t0 acts s r s1 Hcap Hr Hs.
+  pose proof (reach_Inv k cap t0 acts s Hcap Hr) as HInv.
+  assert (E : s1 = release_state s r).
+  { simpl in Hs. destruct HInv as [[] _]. rewrite (release_eq s r i_getq0) in Hs. inversion Hs; reflexivity. }
+  subst s1. apply release_nonuser; [apply release_Inv; exact HInv|].
+  simpl. apply remove_id_gone. destruct HInv as [[] _]. rewrite map_app in i_ids0.
+  clear - i_ids0. induction (map rid (users s)) as [|a l IH]; simpl in *; [constructor|].
+  inversion i_ids0; subst. constructor; [intros Hc; apply H1; apply in_or_app; left; exact Hc|apply IH; assumption].
+Qed.
+
+(* ---- preemption ---------------------------------------------------------------------------------- *)
+
+Definition preempted_state (s : state) (l1 l2 : list req) (w e : req) : state :=
+  mkState ((l1 ++ l2) ++ [grant (now s) e]) (queue s) (getq s) (pending s ++ [EReq (rid e)]) (granted s ++ [rid e])
+          (intrs s ++ [mkIntr w e]) (next_id s) (now s).
+
+(* One call of PreemptiveResource._do_put, exactly.  With a free slot: plain grant.  Full: let w be the LAST
+   user of maximal key (users = l1 ++ w :: l2, nothing in l1 above w, everything in l2 strictly below);
+   w is evicted -- removed from users, its process interrupted with Preempted(by = e's process,
+   usage_since = w's, this resource) -- and e gets the slot in the same call IF AND ONLY IF e has
+   preempt=True and w's key is strictly larger than e's key; otherwise nothing changes at all. *)
+Theorem preempt_call : forall cap act s e, 1 <= cap -> length (users s) <= cap -> NoDup (map rid (users s)) ->
+  (forall p, act = Some p -> forall u, In u (users s) -> rproc u <> p) ->
+  if length (users s) <? cap then do_put KPreempt cap act s e = Some (grant_state s e, true, true)
+  else exists w l1 l2, users s = l1 ++ w :: l2
+       /\ (forall x, In x l1 -> key_ltb (rkey w) (rkey x) = false)
+       /\ (forall x, In x l2 -> key_ltb (rkey x) (rkey w) = true)
+       /\ do_put KPreempt cap act s e =
+            if rpre e && key_ltb (rkey e) (rkey w) then Some (preempted_state s l1 l2 w e, true, true)
+            else Some (s, false, false).
+Proof.
+  intros cap act s e Hcap Hle Hnd Hact. unfold do_put, preempt_do_put.
+  destruct (length (users s) <? cap) eqn:E.
+  - apply Nat.ltb_lt in E. assert (E2 : cap <=? length (users s) = false) by (apply Nat.leb_gt; exact E).
+    rewrite E2. simpl. rewrite res_do_put_eq. apply Nat.ltb_lt in E. rewrite E. reflexivity.
+  - apply Nat.ltb_ge in E. assert (Elen : length (users s) = cap) by lia.
+    assert (E2 : cap <=? length (users s) = true) by (apply Nat.leb_le; exact E). rewrite E2.
+    assert (E3 : length (users s) <? cap = false) by (apply Nat.ltb_ge; exact E).
+    destruct (worst (users s)) as [w|] eqn:Ew.
+    2:{ apply worst_none in Ew. rewrite Ew in Elen. simpl in Elen. lia. }
+    pose proof Ew as Ew'. rewrite worst_lastmax in Ew'. apply lastmax_spec in Ew'. destruct Ew' as (l1 & l2 & Hu & H1 & H2).
+    exists w, l1, l2. split; [exact Hu|]. split; [exact H1|]. split; [exact H2|].
+    destruct (rpre e); simpl; [|rewrite res_do_put_eq, E3; reflexivity].
+    destruct (key_ltb (rkey e) (rkey w)); [|rewrite res_do_put_eq, E3; reflexivity].
+    assert (Hw : In w (users s)) by (rewrite Hu; apply in_or_app; right; left; reflexivity).
+    assert (Hrem : remove_id (rid w) (users s) = l1 ++ l2).
+    { rewrite Hu. apply remove_id_split. rewrite Hu, map_app in Hnd. simpl in Hnd.
+      apply NoDup_remove_2 in Hnd. intros Hc; apply Hnd; apply in_or_app; left; exact Hc. }
+    assert (Hres : res_do_put cap (add_intr (set_users s (remove_id (rid w) (users s))) (mkIntr w e)) e
+                   = (preempted_state s l1 l2 w e, true, true)).
+    { rewrite res_do_put_eq. simpl. rewrite Hrem.
+      assert (length (l1 ++ l2) <? cap = true).
+      { apply Nat.ltb_lt. rewrite Hu in Elen. rewrite app_length in *. simpl in Elen. lia. }
+      rewrite H. reflexivity. }
+    destruct act as [a|]; [|rewrite Hres; reflexivity].
+    assert (a =? rproc w = false) by (apply Nat.eqb_neq; intros Hc; exact (Hact a eq_refl w Hw (eq_sym Hc))).
+    rewrite H, Hres. reflexivity.
+Qed.
+
+Lemma trigger_put_single : forall k cap act s0 e, queue s0 = [e] ->
+  trigger_put k cap act s0 =
+    match do_put k cap act s0 e with
+    | None => None
+    | Some (s', tr, pr) => if tr then Some (set_queue s' []) else Some (set_queue s' [e])
+    end.
+Proof.
+  intros k cap act s0 e H. unfold trigger_put. rewrite H. simpl.
+  destruct (do_put k cap act s0 e) as [[[s' tr] pr]|]; [destruct tr, pr; reflexivity|reflexivity].
+Qed.
+
+(* the same at the level of a request() call on a resource nobody waits for *)
+Theorem preempt_request : forall cap t0 acts s p prio pre, 1 <= cap ->
+  run KPreempt cap (init t0) acts = Some s -> adm s (ARequest p prio pre) = true -> queue s = [] ->
+  let e := new_req s p prio pre in
+  if length (users s) <? cap then
+    step KPreempt cap s (ARequest p prio pre) =
+      Some (mkState (users s ++ [grant (now s) e]) [] [] (pending s ++ [EReq (next_id s)]) (granted s ++ [next_id s])
+                    (intrs s) (S (next_id s)) (now s))
+  else exists w l1 l2, users s = l1 ++ w :: l2
+       /\ (forall x, In x l1 -> key_ltb (rkey w) (rkey x) = false)
+       /\ (forall x, In x l2 -> key_ltb (rkey x) (rkey w) = true)
+       /\ step KPreempt cap s (ARequest p prio pre) =
+            if pre && key_ltb (rkey e) (rkey w)
+            then Some (mkState ((l1 ++ l2) ++ [grant (now s) e]) [] [] (pending s ++ [EReq (next_id s)])
+                               (granted s ++ [next_id s]) (intrs s ++ [mkIntr w e]) (S (next_id s)) (now s))
+            else Some (mkState (users s) [e] [] (pending s) (granted s) (intrs s) (S (next_id s)) (now s)).
+Proof.
+  intros cap t0 acts s p prio pre Hcap Hr Hadm Hq e.
+  destruct (reach_Inv KPreempt cap t0 acts s Hcap Hr) as [HI _]. destruct HI.
+  rewrite Hq, app_nil_r in *.
+  set (s0 := bump_id (set_queue s [e])).
+  assert (Hstep : step KPreempt cap s (ARequest p prio pre) =
+     match do_put KPreempt cap (Some p) s0 e with
+     | None => None
+     | Some (s', tr, pr) => if tr then Some (set_queue s' []) else Some (set_queue s' [e])
+     end).
+  { change (step KPreempt cap s (ARequest p prio pre)) with
+      (trigger_put KPreempt cap (Some p) (bump_id (set_queue s (enqueue KPreempt (queue s) e)))).
+    rewrite Hq. change (enqueue KPreempt [] e) with [e]. fold s0.
+    apply trigger_put_single. reflexivity. }
+  assert (Hcall := preempt_call cap (Some p) s0 e Hcap).
+  change (users s0) with (users s) in Hcall. specialize (Hcall i_cap0 i_ids0).
+  assert (Hnp : forall p0, Some p = Some p0 -> forall u, In u (users s) -> rproc u <> p0).
+  { intros p0 E u Hu. inversion E; subst p0. simpl in Hadm. rewrite Hq, app_nil_r in Hadm.
+    rewrite forallb_forall in Hadm. specialize (Hadm u Hu). apply negb_true_iff, Nat.eqb_neq in Hadm. exact Hadm. }
+  specialize (Hcall Hnp). rewrite Hstep.
+  destruct (length (users s) <? cap).
+  - rewrite Hcall. unfold set_queue, grant_state, s0, bump_id; simpl. rewrite i_getq0. reflexivity.
+  - destruct Hcall as (w & l1 & l2 & Hu & H1 & H2 & Hd). exists w, l1, l2.
+    split; [exact Hu|]. split; [exact H1|]. split; [exact H2|]. rewrite Hd.
+    change (rpre e) with pre.
+    destruct (pre && key_ltb (rkey e) (rkey w)); unfold set_queue, preempted_state, s0, bump_id; simpl; rewrite i_getq0; reflexivity.
+Qed.
+
+(* over every history: whoever was evicted ranked strictly worse than the preempting request that took the slot *)
+Theorem evictions_strict : forall k cap t0 acts s i, 1 <= cap -> run k cap (init t0) acts = Some s ->
+  In i (intrs s) -> key_ltb (rkey (iby i)) (rkey (ivictim i)) = true /\ rpre (iby i) = true.
+Proof. intros k cap t0 acts s i Hcap Hr. destruct (reach_Inv k cap t0 acts s Hcap Hr) as [[] _]. apply i_strict0. Qed.
+
+Theorem only_preemptive_evicts : forall k cap t0 acts s, 1 <= cap -> k <> KPreempt ->
+  run k cap (init t0) acts = Some s -> intrs s = [].
+Proof. intros k cap t0 acts s Hcap Hk Hr. destruct (reach_Inv k cap t0 acts s Hcap Hr) as [[] _]. apply i_nointr0; exact Hk. Qed.
+
+(* every user carries the time of its grant (the usage_since an eviction will report) *)
+Theorem users_have_usage_since : forall k cap t0 acts s u, 1 <= cap -> run k cap (init t0) acts = Some s ->
+  In u (users s) -> exists t, rsince u = Some t /\ (t <= now s)%Z.
+Proof. intros k cap t0 acts s u Hcap Hr. destruct (reach_Inv k cap t0 acts s Hcap Hr) as [[] _]. apply i_since0. Qed.
+
+(* ================================================================================================ *)
+(* 7. the hypotheses are satisfiable: a history with waiting, a cancel that lets the next request    *)
+(*    preempt, a double release, a release of a non-user, coinciding operations                      *)
+
+Definition ex_acts : list action :=
+  [ ARequest 0 5 false; AProcess (EReq 0); AAdvance 1;
+    ARequest 1 0 false; ARequest 2 1 true; AAdvance 2;
+    ACancel 1 1;                              (* the head leaves: request 2 is first now and evicts request 0 *)
+    AProcess (EReq 2); ARequest 3 1 true; ARequest 4 0 true;      (* request 4 outranks user 2 and evicts it *)
+    ARelease 2; ARelease 2; ARelease 7;
+    AProcess (ERel 5); AProcess (EReq 4); AProcess (ERel 6); AProcess (ERel 7); AAdvance 3 ].
+
+Example ex_history : exists s, run KPreempt 1 (init 0) ex_acts = Some s
+  /\ map rid (users s) = [4] /\ map rid (queue s) = [3] /\ map intr_fields (intrs s) = [(0, 2, Some 0%Z); (2, 4, Some 2%Z)]
+  /\ pending s = [] /\ now s = 3%Z.
+Proof. eexists. split; [vm_compute; reflexivity|]. repeat split. Qed.
+
+(* the state before the last action of ex_acts admits the clock advance, has a waiter, and is full *)
+Example ex_advance : exists s, run KPreempt 1 (init 0) (removelast ex_acts) = Some s
+  /\ adm s (AAdvance 3) = true /\ queue s <> [] /\ length (users s) = 1.
+Proof. eexists. split; [vm_compute; reflexivity|]. repeat split. discriminate. Qed.
+
+(* a state where preempt_request applies in its evicting branch *)
+Example ex_preempt : exists s, run KPreempt 1 (init 0) [ARequest 0 5 false] = Some s
+  /\ adm s (ARequest 1 1 true) = true /\ queue s = [] /\ (length (users s) <? 1) = false.
+Proof. eexists. split; [vm_compute; reflexivity|]. repeat split. Qed.
+
+Example ex_fifo : exists s, run KRes 2 (init 0)
+    [ARequest 0 0 true; ARequest 1 0 true; ARequest 2 0 true; ARequest 3 0 true; ARelease 0; AProcess (ERel 4)] = Some s
+  /\ map rid (users s) = [1; 2] /\ map rid (queue s) = [3].
+Proof. eexists. split; [vm_compute; reflexivity|]. repeat split. Qed.
